@@ -1,5 +1,6 @@
 import ActixNet.Lemmas.Avail
 import ActixNet.Lemmas.SrvRR
+import ActixNet.Lemmas.SrvProgress
 /-!
 # C04 — dispatch is round-robin over available workers only; availability bits are independent
 
@@ -125,6 +126,24 @@ theorem available_iff_capacity_modulo_wakeup (cfg : Cfg) (s : St) (g : Good cfg 
   · have := gw.2.1 h; omega
   · have := gw.2.2.2.2.1 h ht; omega
 
+/-- **Round robin in every reachable state**: after ANY fault-free history (all schedules, limits, 1..512 workers),
+at an iteration boundary, if the `k ≤ W` cursor positions from `next` on are marked available then `k`
+connections handed to the accept loop back to back go to `next, next+1, …` — pairwise distinct workers.
+(The hypotheses of `consecutive_connections_follow_the_cursor` hold in every reachable state.) -/
+theorem reachable_round_robin (cfg : Cfg) (ok : CfgOk cfg) (kinds : List Kind) (ops : List Op)
+    (hff : ∀ op ∈ ops, op.faultFree) (cs : List Conn) (hk : cs.length ≤ cfg.nIdx)
+    (hav : ∀ j, j < cs.length → (run cfg (init cfg kinds) ops).avail (((run cfg (init cfg kinds) ops).next + j) % cfg.nIdx) = true) :
+    (burst cfg (run cfg (init cfg kinds) ops) cs).dispatched =
+      (run cfg (init cfg kinds) ops).dispatched ++
+        (List.range cs.length).zipWith (fun j c => (c, ((run cfg (init cfg kinds) ops).next + j) % cfg.nIdx)) cs ∧
+    (((burst cfg (run cfg (init cfg kinds) ops) cs).dispatched.drop (run cfg (init cfg kinds) ops).dispatched.length).map (·.2)).Nodup := by
+  have hinv := run_inv ok ops _ (init_inv cfg ok kinds) hff
+  have hs : (run cfg (init cfg kinds) ops).sched = [] := run_sched_nil cfg ops _ rfl
+  have hacc : AccInv cfg (run cfg (init cfg kinds) ops) := ⟨hinv.1, hinv.2, by unfold SchedOk; rw [hs]; intro ch h; cases h⟩
+  have hnf := run_fault_none ok kinds ops
+  exact ⟨(consecutive_connections_follow_the_cursor cfg ok cs _ hacc hnf hk hav).1,
+    consecutive_connections_go_to_distinct_workers cfg ok cs _ hacc hnf hk hav⟩
+
 /-! ### Non-vacuity of the composed round-robin theorems -/
 def cfg3 : Cfg := { limit := 2, nIdx := 3 }
 example : CfgOk cfg3 ∧ AccInv cfg3 (init cfg3 [.tcp]) ∧ (init cfg3 [.tcp]).fault = none ∧
@@ -137,5 +156,15 @@ example : CfgOk cfg3 ∧ AccInv cfg3 (init cfg3 [.tcp]) ∧ (init cfg3 [.tcp]).f
 example : (burst cfg3 (init cfg3 [.tcp]) [(0, 0), (1, 0), (2, 0)]).dispatched.map (·.2) = [0, 1, 2] := by decide
 -- with a fourth connection the cursor wraps: worker 0 gets its second connection (limit 2)
 example : (burst cfg3 (init cfg3 [.tcp]) [(0, 0), (1, 0), (2, 0), (3, 0)]).dispatched.map (·.2) = [0, 1, 2, 0] := by decide
+-- `reachable_round_robin` after a history that saturated and released worker 0: the cursor stands at 1
+def rrOps : List Op :=
+  [.env (.connect 0), .env (.connect 0), .env (.connect 0), .env (.connect 0), .poll [.listener 0, .waker] [],
+   .env (.recv 0), .env (.recv 0), .env (.finishNow 0 none), .poll [.waker] []]
+example : (∀ op ∈ rrOps, op.faultFree) ∧ (run cfg3 (init cfg3 [.tcp]) rrOps).next = 1 ∧
+    (∀ j, j < 3 → (run cfg3 (init cfg3 [.tcp]) rrOps).avail (((run cfg3 (init cfg3 [.tcp]) rrOps).next + j) % cfg3.nIdx) = true) := by
+  refine ⟨by intro op h; simp [rrOps] at h; rcases h with rfl | rfl | rfl | rfl | rfl | rfl | rfl | rfl | rfl <;> simp [Op.faultFree, NoDie, EnvAct.isDie], by decide, ?_⟩
+  intro j hj
+  have : j = 0 ∨ j = 1 ∨ j = 2 := by omega
+  rcases this with rfl | rfl | rfl <;> decide
 
 end ActixNet.C04
